@@ -137,6 +137,9 @@ def run_inherit(pid, tier, res=None, finish=True):
         if cid % 397 == 0 and obs["accepted"]:
             res.sample({"types": [{k: t[k] for k in ("name", "exposed", "asrefs", "baseHasVft", "ownBlock")} for t in case["oracle"]["types"]],
                         "ptr": case["input"]["ptr"]})
+    if pid in ("C06", "C07"):
+        from . import execrig, execplan
+        execrig.apply(pl, res, lambda c: execplan.plan_inherit(c, pid), payload, cov)
     cov.update({"evaluations": n_checked, "distinct_nontrivial": n_checked, "accepted_by_code": n_acc,
                 "rule": "every hierarchy enumerated by TLC for MC_Inherit (base tables, every variant of the derived block, second base, "
                         "name clashes, depth 2, diamonds) replayed into pyxis; emitted structs, accessors, forwarded wrappers and "
